@@ -435,9 +435,9 @@ def run(ctx):
         tasks.append({"sid": "%s-%d" % (s[0], i) if s[0] == "gen" else "corpus:" + s[1]["id"], "op": op, "seed": ctx.seed})
     nat = natural_failures(rng)
     # phase 1: references
-    refs = ctx.map("task_reference", tasks, budget_s=ctx.budget_s * 0.25)
+    refs = ctx.map("task_reference", tasks, budget_s=ctx.budget_s * 0.25, min_tasks=8)
     nat_tasks = [{"sid": "natural:" + o["natural"], "op": o, "seed": ctx.seed} for o in nat]
-    nat_refs = ctx.map("task_plain_reference", nat_tasks, budget_s=ctx.budget_s * 0.1)
+    nat_refs = ctx.map("task_plain_reference", nat_tasks, budget_s=ctx.budget_s * 0.1, min_tasks=4)
     # phase 2: enumerate
     chunks = []
     enumerated = []
@@ -479,7 +479,7 @@ def run(ctx):
     # interleave chunks of different scenarios so that a budget cut does not drop whole scenarios
     rng.shuffle(chunks)
     chunks = nat_chunks + chunks
-    done = ctx.map("task_faults", chunks)
+    done = ctx.map("task_faults", chunks, min_tasks=48)
     # ---- collect
     violations = []
     fired, phase_hits, nontrivial = {}, {}, set()
